@@ -506,18 +506,22 @@ def storageTypeOf (cfg : Cfg) (storage : Option String) : Option Storage :=
   | some s => Storage.parse s
   | none => some cfg.storage
 
+/-- the `match storage_type` of `get_input_settings` -/
+def inputOfStorage (env : Env) (cfg : Cfg) : Storage → Outcome Input
+  | .fs =>
+    match cfg.fs with
+    | some (dir, suffix) => .ok (.fs (getAbsPath env dir) (stripDot suffix))
+    | none => .err
+  | .git =>
+    match cfg.git with
+    | some g => .ok (.git (getAbsPath env g.repo) g.dir (.reference g.ref) (stripDot g.suffix))
+    | none => .err
+
 /-- `Settings::get_input_settings(storage, Some(conf_path))` -/
 def getInputSettings (env : Env) (cfg : Cfg) (storage : Option String) : Outcome Input :=
   match storageTypeOf cfg storage with
   | none => .err
-  | some .fs =>
-    match cfg.fs with
-    | some (dir, suffix) => .ok (.fs (getAbsPath env dir) (stripDot suffix))
-    | none => .err
-  | some .git =>
-    match cfg.git with
-    | some g => .ok (.git (getAbsPath env g.repo) g.dir (.reference g.ref) (stripDot g.suffix))
-    | none => .err
+  | some st => inputOfStorage env cfg st
 
 /-- `get_git_selector`; both present is a `panic!` that clap's group excludes: outside the model -/
 def getGitSelector (c : CliOpts) : Outcome (Option GitSel) :=
